@@ -12,6 +12,12 @@ try { acorn = require('internal/deps/acorn/acorn/dist/acorn'); } catch (e) { aco
 function q(s) { return JSON.stringify(s); }
 // string values are compared by meaning: printable ASCII as is (except " and \), every other UTF-16 code unit as \uXXXX
 // (the same rendering as jsstr.Show in the Go harness)
+// numbers are compared by value: the IEEE-754 bit pattern (the same rendering as jsstr.NumMeaning in the Go harness)
+function f64(v) {
+  const b = Buffer.alloc(8);
+  b.writeDoubleBE(v);
+  return 'f64:' + b.toString('hex');
+}
 function showUnits(s) {
   let out = '';
   for (let i = 0; i < s.length; i++) {
@@ -43,13 +49,13 @@ function S(n) {
     case 'Identifier': return '(id ' + n.name + ')';
     case 'Literal':
       if (n.value === null && n.raw === 'null') return '(null)';
-      if (typeof n.value === 'number') return '(num ' + n.raw + ')';
+      if (typeof n.value === 'number') return '(num ' + f64(n.value) + ')';
       if (typeof n.value === 'string') return '(str ' + showUnits(n.value) + ')';
       if (typeof n.value === 'boolean') return '(' + n.raw + ')';
       return '(unsupported Literal)';
     case 'TemplateLiteral':
       if (n.expressions.length) return '(unsupported TemplateLiteral-with-expressions)';
-      return '(tpl ' + q(n.quasis[0].value.raw) + ')';
+      return '(tpl ' + (n.quasis[0].value.cooked === null || n.quasis[0].value.cooked === undefined ? '!raw:' + n.quasis[0].value.raw : showUnits(n.quasis[0].value.cooked)) + ')';
     case 'ArrayExpression': return '(arr' + n.elements.map(e => ' ' + S(e)).join('') + ')';
     case 'ObjectExpression':
       return '(obj' + n.properties.map(p => {
